@@ -61,6 +61,10 @@ type Hooks struct {
 	CallCtx func(x *Exec, site ssa.CallInstruction, callee *ssa.Function) string
 	// AtReturn is invoked for every exit of every analysed activation (not only the entry point).
 	AtReturn func(x *Exec, e *Exit)
+	// Learn is invoked for every boolean value whose truth becomes known by following a branch edge: the
+	// condition itself, the operand of a negation, and - through phi aliases - the value a boolean variable was
+	// assigned on the path taken (needSync := a >= b ... if needSync). It may refine the abstract state.
+	Learn func(x *Exec, v ssa.Value, truth bool, a AState) AState
 }
 
 type Finding struct {
@@ -152,6 +156,7 @@ type pstate struct {
 	a      AState
 	defers []*ssa.Defer
 	facts  map[string]int8
+	alias  map[string]ssa.Value // phi name -> the (non-constant) boolean value it received on the path taken
 	parent *pstate
 	blk    *ssa.BasicBlock
 }
@@ -174,6 +179,15 @@ func (s *pstate) key() string {
 	for _, k := range ks {
 		fmt.Fprintf(&sb, "%s=%d,", k, s.facts[k])
 	}
+	if len(s.alias) > 0 {
+		as := make([]string, 0, len(s.alias))
+		for k, v := range s.alias {
+			as = append(as, k+"~"+v.Name())
+		}
+		sort.Strings(as)
+		sb.WriteByte('|')
+		sb.WriteString(strings.Join(as, ","))
+	}
 	return sb.String()
 }
 
@@ -181,6 +195,12 @@ func (s *pstate) clone() *pstate {
 	n := &pstate{a: s.a, defers: append([]*ssa.Defer(nil), s.defers...), facts: make(map[string]int8, len(s.facts)), parent: s.parent, blk: s.blk}
 	for k, v := range s.facts {
 		n.facts[k] = v
+	}
+	if len(s.alias) > 0 {
+		n.alias = make(map[string]ssa.Value, len(s.alias))
+		for k, v := range s.alias {
+			n.alias[k] = v
+		}
 	}
 	return n
 }
@@ -485,6 +505,16 @@ func (x *Exec) enter(from, to *ssa.BasicBlock, s *pstate, work *[]workItem, seen
 		x.cur = s
 		t, known := x.truthOf(ed, s)
 		ups = append(ups, upd{valKey(ph), t, known})
+		if isBool(ph.Type()) {
+			if _, isConst := ed.(*ssa.Const); !isConst && !known {
+				if s.alias == nil {
+					s.alias = map[string]ssa.Value{}
+				}
+				s.alias[valKey(ph)] = ed
+			} else if s.alias != nil {
+				delete(s.alias, valKey(ph))
+			}
+		}
 	}
 	for _, u := range ups {
 		if u.ok {
@@ -682,6 +712,15 @@ func (x *Exec) learn(cond ssa.Value, taken bool, s *pstate) {
 	t := int8(0)
 	if taken {
 		t = 1
+	}
+	if x.E.H.Learn != nil {
+		x.cur = s
+		s.a = x.E.H.Learn(x, cond, taken, s.a)
+	}
+	if ph, ok := cond.(*ssa.Phi); ok && s.alias != nil {
+		if src, ok := s.alias[valKey(ph)]; ok && src != cond {
+			x.learn(src, taken, s)
+		}
 	}
 	switch u := cond.(type) {
 	case *ssa.UnOp:
